@@ -1119,7 +1119,14 @@ func checkC13(h *History, sc *ScanCtx, g *GroupCtx, r *Report) {
 		if relDiff(gg.CPUPct, wc) > 1e-9 || relDiff(gg.MemPct, wm) > 1e-9 {
 			r.Violate(P, "percent-gauge-mismatch", "group %s: percent gauges cpu=%v mem=%v, exact cpu=%v mem=%v", g.Cfg.Name, gg.CPUPct, gg.MemPct, wc, wm)
 		}
-		r.Covered(P, fmt.Sprintf("gauges:pods%s:nodes%s", bucketN(len(g.View.Pods)), bucketN(len(g.View.Untainted))))
+		sig := fmt.Sprintf("gauges:pods%s:nodes%s", bucketN(len(g.View.Pods)), bucketN(len(g.View.Untainted)))
+		for _, p := range g.View.Pods {
+			if p.DeletionTimestamp != nil {
+				sig += ":terminating-pods"
+				break
+			}
+		}
+		r.Covered(P, sig)
 	}
 }
 
@@ -1484,6 +1491,9 @@ func checkC20(h *History, sc *ScanCtx, r *Report) {
 		for _, e := range rec.Events {
 			if e.Injected {
 				kinds[e.API+":"+errClass(e)] = true
+			}
+			if e.API == sim.AwsDescASG && strings.HasPrefix(e.Note, "answer leaves out") {
+				kinds[e.API+":registered-group-left-out-of-the-answer"] = true
 			}
 		}
 		for k := range kinds {
